@@ -1,0 +1,16 @@
+//go:build verif
+
+// Package verifhook lets the verification harness observe (and, by blocking in Sink, schedule)
+// the linearization points of concurrent requests.  It is compiled in only with the build tag
+// "verif"; without the tag At is an empty function.
+package verifhook
+
+// Sink, when set, is called synchronously at every hook point.
+var Sink func(point string, kv ...any)
+
+// At reports that the calling goroutine reached the named point.
+func At(point string, kv ...any) {
+	if s := Sink; s != nil {
+		s(point, kv...)
+	}
+}
